@@ -30,6 +30,9 @@ CLAIMED = {
  "C11": ("return-case analysis of the IP verifier, role/provenance of refreshed identity and netblocks, structural encoder/decoder agreement (bit length, byte count, mask, family constant), bounded-copy obligations",
          "The verifier accepts only on Contains(peer) with the peer parsed from the TCP address; the IP-certificate credential is granted only on helper success and never doubles as an ordinary certificate; refresh copies identity and netblocks from the authenticated certificate; encoder and decoder agree structurally and the decoder's copy is bounded.",
          "The numerical iff over all prefixes/addresses (a value round trip) is not decided; net.IPNet.Contains/CIDRMask/asn1 are trusted.", "DESIGN.md §3 C11"),
+ "C13": ("return-case dominance in the redirect validator, classification of the verdict's true-sources, shape check of the shared host predicate, sibling agreement, redirect-target provenance",
+         "Every possibly-true return of the validator is dominated by parse ok, https, empty query and no '..'; its verdict is true only from configured domain/pattern matches combined as the configuration demands; the shared host predicate accepts only equality or a dot-bounded suffix; the three sibling sites use that predicate on Hostname(); the handler redirects only to the validated string on the true edge.",
+         "net/url semantics (user-info, ports, encodings) are trusted; operator-configured regular expressions are not analysed.", "DESIGN.md §3 C13"),
  "C12": ("dominance of the token-minting calls by the conjunction of code/client/expiry/redirect/type facts, decision-structure classification of the client-authentication flag, shape check of the PKCE verifier, store-provenance of token fields",
          "Both minting calls of the token endpoint are dominated on all paths by the verified code, client authentication, client==code.sub, strict expiry, equal redirect_uri and the code type; the authentication flag is true only from PKCE (secret-less client) or a non-empty secret; the PKCE verifier compares against the challenge decrypted from the same code; token/code/userinfo fields have the stated provenance (field-store analysis).",
          "Trusts go-jose and JSON encoding. Field provenance is judged per store into the token structs in the current source.", "DESIGN.md §3 C12"),
